@@ -78,6 +78,8 @@ func ruleCases(missing, aDir, aFile string) []rcase {
 		s("ints", []string{"1", "x"}, "slice/array element is not all num", "[1, x]"),
 		s("float", "x", "it is not float", "x"),
 		s("re='^a$'", "b", "regex match is failed, pattern: ^a$", "b"),
+		s("re='^(red|green)$'", "blue", "regex match is failed, pattern: ^(red|green)$", "blue"),
+		s("re='a|b'", "c", "regex match is failed, pattern: a|b", "c"),
 		s("unique", "a,a", "they're not unique", "a,a"),
 		s("unique", []int{1, 1}, "they're not unique", "[1,1]"),
 		s("json", "{", "it is not json", "{"),
@@ -92,7 +94,9 @@ func ruleCases(missing, aDir, aFile string) []rcase {
 	return out
 }
 
-var messages = []string{"", "bad value", "值不对", "值 bad", "x", "字", "a=b", "'带,逗号'", "'with, comma'", "see (1~2)/x"}
+var messages = []string{"", "bad value", "值不对", "值 bad", "x", "字", "a=b", "'带,逗号'", "'with, comma'", "see (1~2)/x",
+	// messages ending in characters of the clause separator: verbatim means nothing is trimmed from them
+	"ends with;", "ends with space ", "结尾;", "too big ;", ";", " lead"}
 
 func withMsg(rule, msg string) string {
 	if msg == "" {
@@ -224,7 +228,9 @@ func run(c *runner.Ctx) {
 				// extractor on this single-clause error
 				checkExtractor(c, errStr, expectedExplain(cls), "single-clause", det)
 			}
-			c.Sample(func() interface{} { return map[string]interface{}{"rules": rules, "value": fmt.Sprint(rc.val.Interface())} })
+			c.Sample(func() interface{} {
+				return map[string]interface{}{"rules": rules, "value": fmt.Sprint(rc.val.Interface())}
+			})
 		}
 	}
 
